@@ -37,6 +37,8 @@ pub enum Op {
     Sub(usize, Init),
     /// a sub-context created through the generated `<I18nSubContextProvider>` component in the parent's owner
     SubProv(usize, Init),
+    /// a sub-context created with `provide_i18n_subcontext` (the entry point without options) in a child owner
+    SubFn(usize, Init),
     /// `use_i18n()` looked up now in the owner the context was provided in, then `set_locale` through that handle
     SetViaLookup(usize, usize),
     SigSet(usize, usize),
@@ -79,6 +81,8 @@ impl Model {
             if n < max_ctx {
                 v.push(Op::SubProv(c, Init::None));
                 v.push(Op::SubProv(c, Init::Const(2)));
+                v.push(Op::SubFn(c, Init::None));
+                v.push(Op::SubFn(c, Init::Wired(1)));
                 v.push(Op::Sub(c, Init::None));
                 v.push(Op::Sub(c, Init::Const(2)));
                 v.push(Op::Sub(c, Init::Wired(1)));
@@ -107,7 +111,7 @@ impl Model {
                     self.cands[c].insert(p);
                 }
             }
-            Op::Sub(parent, init) | Op::SubProv(parent, init) => {
+            Op::Sub(parent, init) | Op::SubProv(parent, init) | Op::SubFn(parent, init) => {
                 let start: BTreeSet<usize> = match init {
                     Init::None => self.cands[parent].clone(),
                     Init::Const(l) | Init::Wired(l) => [l].into(),
@@ -244,6 +248,20 @@ impl Real {
                 self.ctxs.push(ctx);
                 self.owners.push(owner);
                 self.wired.push(None);
+            }
+            Op::SubFn(parent, init) => {
+                let child_owner = self.owners[parent].child();
+                let (ctx, sig) = child_owner.with(|| match init {
+                    Init::None => (leptos_i18n::context::provide_i18n_subcontext::<Locale>(None), None),
+                    Init::Const(l) => (leptos_i18n::context::provide_i18n_subcontext::<Locale>(Some(Signal::derive(move || loc(l)))), None),
+                    Init::Wired(l) => {
+                        let s = RwSignal::new(loc(l));
+                        (leptos_i18n::context::provide_i18n_subcontext::<Locale>(Some(s.into())), Some(s))
+                    }
+                });
+                self.ctxs.push(ctx);
+                self.owners.push(child_owner);
+                self.wired.push(sig);
             }
             Op::SetViaLookup(c, l) => {
                 let handle: I18nContext<Locale> = self.owners[c].with(use_i18n);
@@ -523,7 +541,7 @@ pub fn run(tier: Tier) -> i32 {
     rep.sample(json!({"history": format!("{probe:?}"), "snapshots": a}));
     let n_states = states.lock().unwrap().len();
     let mut cov = serde_json::Map::new();
-    cov.insert("rule".into(), json!(format!("every operation history of length <= {depth} over a tree of <= {max_ctx} contexts: set_locale / set_locale_untracked (fr, de) on any context, set through a doubly scoped view, sub-context creation under any context with no / constant / caller-wired initial locale - directly (init_i18n_subcontext_with_options in a child owner) or through the generated <I18nSubContextProvider> component placed in the parent's owner -, set_locale through a handle looked up with use_i18n() in a context's owner after everything created next to it, writes to a wired signal (changing and not changing its value), creation of accessor sets (t! closures with and without arguments and scoping, t_string!, tu_string!, t_display!, the format macros; a Memo + Effect pair, and one Memo per tracked accessor - t_string!, t_display!, t!, the scoped forms, t_format_string!, t_format_display!, t_format!, t_plural!, t_plural_ordinal!, get_locale - holding that accessor alone) and `poll` (run effects to quiescence - also absent, so both 'effects have run' and 'not yet' are explored); each history is replayed from scratch on a fresh Owner (stateless search) and after EVERY step every context, a fresh scoped view of it and every accessor made earlier is read; oracle: a map context -> last locale set (own sets and its wired signal only); states = distinct (context locales) snapshots reached")));
+    cov.insert("rule".into(), json!(format!("every operation history of length <= {depth} over a tree of <= {max_ctx} contexts: set_locale / set_locale_untracked (fr, de) on any context, set through a doubly scoped view, sub-context creation under any context with no / constant / caller-wired initial locale - directly (init_i18n_subcontext_with_options in a child owner) through the generated <I18nSubContextProvider> component placed in the parent's owner, or with provide_i18n_subcontext in a child owner -, set_locale through a handle looked up with use_i18n() in a context's owner after everything created next to it, writes to a wired signal (changing and not changing its value), creation of accessor sets (t! closures with and without arguments and scoping, t_string!, tu_string!, t_display!, the format macros; a Memo + Effect pair, and one Memo per tracked accessor - t_string!, t_display!, t!, the scoped forms, t_format_string!, t_format_display!, t_format!, t_plural!, t_plural_ordinal!, get_locale - holding that accessor alone) and `poll` (run effects to quiescence - also absent, so both 'effects have run' and 'not yet' are explored); each history is replayed from scratch on a fresh Owner (stateless search) and after EVERY step every context, a fresh scoped view of it and every accessor made earlier is read; oracle: a map context -> last locale set (own sets and its wired signal only); states = distinct (context locales) snapshots reached")));
     cov.insert("exhaustive".into(), json!(true));
     cov.insert("states".into(), json!(n_states.max(1)));
     cov.insert("depth".into(), json!(depth));
